@@ -12,7 +12,8 @@ import (
 // WebsocketConnection implements a ReadWriteCloser over a websocket connection
 type WebsocketTunnelConnection struct {
 	*websocket.Conn
-	closed bool
+	closed  bool
+	pending []byte // rest of the last message that did not fit the caller's buffer
 }
 
 func NewWebsocketTunnelConnection(conn *websocket.Conn) *WebsocketTunnelConnection {
@@ -22,23 +23,24 @@ func NewWebsocketTunnelConnection(conn *websocket.Conn) *WebsocketTunnelConnecti
 }
 
 func (wstc *WebsocketTunnelConnection) Read(p []byte) (int, error) {
-	messageType, message, err := wstc.Conn.ReadMessage()
-	if messageType == websocket.CloseMessage || messageType == -1 {
-		return 0, io.EOF
-	} else if messageType != websocket.BinaryMessage {
-		return 0, errors.Errorf("Invalid message type: %v", messageType)
-	} else if err != nil {
-		return 0, errors.WithStack(err)
+	for len(wstc.pending) == 0 {
+		messageType, message, err := wstc.Conn.ReadMessage()
+		if messageType == websocket.CloseMessage || messageType == -1 {
+			return 0, io.EOF
+		} else if messageType != websocket.BinaryMessage {
+			return 0, errors.Errorf("Invalid message type: %v", messageType)
+		} else if err != nil {
+			return 0, errors.WithStack(err)
+		}
+		wstc.pending = message
 	}
 
-	msgLen := len(message)
-	if len(p) < msgLen {
-		return 0, errors.Errorf("Buffer to small: message size is %v, but buffer size is %v", msgLen, len(p))
-	}
+	// A message may be larger than the reader's buffer (e.g. the 4096-byte handshake reader);
+	// hand out what fits and keep the rest for the next call.
+	n := copy(p, wstc.pending)
+	wstc.pending = wstc.pending[n:]
 
-	copy(p, message)
-
-	return msgLen, nil
+	return n, nil
 }
 
 // Write will take a stream of bytes and send it over a websocket connection.
